@@ -31,4 +31,5 @@ var verifHarnesses = map[string]func(){
 	"VerifC07DoubleVoting": VerifC07DoubleVoting,
 	"VerifC05NewValidatorHook": VerifC05NewValidatorHook,
 	"VerifC16Allocate": VerifC16Allocate,
+	"VerifC03TopNStep": VerifC03TopNStep,
 }
